@@ -16,7 +16,8 @@ TECHNIQUE = ('typestate fixpoint on clang CFGs (clang --analyze, debug.DumpCFG o
              'of each protocol function per #if configuration; path-sensitive AST dataflow (pyflow) of the yield-site emitter; table agreement of '
              'resume_label constants between compiler and C runtime; flow-insensitive points-to (ownership) analysis of the closure-slot allocator; '
              'path-sensitive typestate of gen->yieldfrom over the parsed C text of every SendEx caller (all #if variants, interprocedural entry states); push/pop pairing, '
-             'guard tables and flag/slot agreement by structural extraction')
+             'guard tables and flag/slot agreement by structural extraction; path-sensitive dynamic-scope (save / set / restore) dataflow of the handled-exception attributes of '
+             'FunctionState over every generator method that writes them (attributes found from their readers)')
 DECIDES = ('S1: in every function of Coroutine.c/AsyncGen.c that calls __Pyx_Coroutine_test_and_set_is_running, for every combination of the #if '
            'conditions inside it: the result of the call is branched on; the "already running" branch never releases; on the acquired branch every path '
            'to a return (or the end of the function) passes __Pyx_Coroutine_unset_is_running exactly once; no second acquire while holding; macros and '
@@ -40,7 +41,10 @@ DECIDES = ('S1: in every function of Coroutine.c/AsyncGen.c that calls __Pyx_Cor
            'ITERNEXT: iternext=1 is passed exactly by the functions installed in tp_iternext. '
            'AGRUN: every INIT->ITER transition of an asend/athrow awaitable follows the already-running test of its branch and stores ag_running_async = 1. '
            'RESUME: generate_yield_code copies live temporaries into the closure before the return and out of it after the resume label, NULL-checks the sent value after the label, and swaps the '
-           'handled exception into the generator exactly inside an except block.')
+           'handled exception into the generator exactly inside an except block. '
+           'EXCSCOPE: the funcstate attribute that test reads (current_except) and the re-raise variables (exc_vars) are dynamically scoped in every method of Cython/Compiler that writes them: '
+           'on every normal exit the attribute holds the value found on entry (restored from a local loaded before the first write, not a constant), except clauses are generated while '
+           'current_except holds a value set by the method, the try body / else clause while it holds the entry value.')
 NOT_DECIDED = ('the observable trace itself (values, StopIteration payloads, finally blocks, exception chaining) — only the run-state, delegation and resume-point '
                'bookkeeping is decided. Which exception is pending when close() resumes the body (GeneratorExit raised although closing the delegate failed), the set of exceptions close() '
                'swallows, and the PEP 479 replacement emission (a single emission under a future-directive test, no structural partner) are not decided. Rule S3 of the design (raise => error return on the same CFGs) is not armed: its 12 untriaged sites need value '
@@ -48,7 +52,9 @@ NOT_DECIDED = ('the observable trace itself (values, StopIteration payloads, fin
                '== 0, or parked in one local); a release made conditional on a second, correlated flag would be reported although correct. '
                'Configurations are enumerated per function over the atoms of its own #if lines (defined(X) and X are independent atoms); macro bodies '
                'are expanded for the configuration of the installed CPython headers only. AsyncGen.c has no test_and_set call today (it goes through '
-               'the Coroutine.c entry points); its functions are scanned and would be analysed if one appears.')
+               'the Coroutine.c entry points); its functions are scanned and would be analysed if one appears. '
+               'EXCSCOPE analyses each writer method on its own: a set / restore pair split over two helper methods (or a context manager) would be reported although correct; '
+               'that a yield inside the exceptional copy of a finally clause keeps the in-flight exception is not decided.')
 ASSUMPTIONS = ['clang 14 is on PATH and the CPython headers of the running interpreter are installed (clang is used as a parser; nothing is compiled or run)',
                'the textual format of `debug.DumpCFG` (block headers, `N: stmt`, `T:` terminators, `Succs`) is that of clang 14; a changed format yields ANALYSIS-ERROR through the ENTRY/EXIT and control-function checks',
                'the first successor of a two-way block is the true edge (clang CFG convention); checked by the embedded `inverted` control']
@@ -90,6 +96,11 @@ MUTATIONS = [
     ('Cython/Compiler/ExprNodes.py', 'generate_yield_code: restore copy reversed; sent-value check dropped; SwapException under `current_except is None`', 'C23-RESUME (3 variants)'),
     ('Cython/Compiler/Nodes.py', 'exit code without `resume_label = -1`', 'C23-RL finished-marker:missing (was ANALYSIS-ERROR)'),
     ('Cython/Utility/Coroutine.c', 'Close: GeneratorExit raised although CloseIter failed; only GeneratorExit swallowed; Nodes: PEP 479 replacement dropped', 'MISSED (see NOT_DECIDED)'),
+    # fifth round (session H3; patches in /verif/mutants/C23/except-scope-* and excvars-*)
+    ('Cython/Compiler/Nodes.py', 'SEED C23f: TryExceptStatNode.generate_execution_code resets funcstate.current_except to None after the clauses instead of the saved outer value', 'C23-EXCSCOPE ...:current_except:restore'),
+    ('Cython/Compiler/Nodes.py', 'restore dropped / made conditional / moved into the clause loop / restoring a local read after the set', 'C23-EXCSCOPE restore (4 variants)'),
+    ('Cython/Compiler/Nodes.py', 'current_except = self dropped / moved behind the clause loop; set at the top of the method (try body generated as if inside the handler)', 'C23-EXCSCOPE set (2 variants) / outside'),
+    ('Cython/Compiler/Nodes.py', 'ExceptClauseNode: exc_vars restore dropped; TryFinallyStatNode: exc_vars reset to None', 'C23-EXCSCOPE ...:exc_vars:restore (2 variants)'),
 ]
 PRESERVING = [
     ('Cython/Utility/Coroutine.c', 'Close: Undelegate after Py_DECREF(yf), `yf != NULL`; AmSend: `else if (!gen->yieldfrom) SendEx`; SendEx: `resume_label < 0`', 'silent'),
@@ -105,6 +116,7 @@ PRESERVING = [
     ('Cython/Compiler/Code.py', 'ClosureTempAllocator.reset: self.temps_free = {t: list(c) for t, c in self.temps_allocated.items()}', 'silent'),
     ('Cython/Compiler/Code.py', 'reset: loop over keys, `names = self.temps_allocated[ctype]; self.temps_free[ctype] = names[:]`', 'silent'),
     ('Cython/Compiler/Code.py', 'reset: copy.deepcopy(self.temps_allocated); allocate_temp: `free = self.temps_free[type]; if free: return free.pop(0)`', 'silent'),
+    ('Cython/Compiler/Nodes.py', 'current_except: funcstate aliased, restore in a try/finally; save+set as one tuple assignment, exc_vars saved and restored unconditionally; save/set/loop/restore extracted into a helper method', 'silent'),
 ]
 
 
